@@ -1,6 +1,7 @@
 package main
 
 import (
+	"strconv"
 	"fmt"
 	"go/types"
 	"os"
@@ -30,6 +31,8 @@ type Verifier struct {
 	contracts map[string]*BoundContract // by canonical full name
 	specs     map[string]*SpecFunc
 	ghosts    map[string]*GhostVar
+	zeroedGhosts []string
+	bridges   map[string][]*afBridge
 	axioms    []*boundAxiom
 	lemmas    []*boundLemma
 	purePats  []string
@@ -130,6 +133,7 @@ func loadVerifier(repo string, specDir string) (*Verifier, error) {
 			return nil, err
 		}
 	}
+	v.computeBridges()
 	return v, nil
 }
 
@@ -141,6 +145,9 @@ func (v *Verifier) addFile(cf *ContractFile, pkg *types.Package) error {
 		}
 		g.Pkg = pkg
 		v.ghosts[g.Name] = g
+		if g.Zeroed {
+			v.zeroedGhosts = append(v.zeroedGhosts, g.Name)
+		}
 	}
 	for _, s := range cf.Specs {
 		s.Pkg = pkg
@@ -254,11 +261,18 @@ func (v *Verifier) namedType(pkgPath, name string) types.Type {
 	return o.Type()
 }
 
+var anonTargetRe = regexp.MustCompile(`^(.*?)((?:\$\d+)+)$`)
+
 var methodTargetRe = regexp.MustCompile(`^\(\s*(\*?)\s*([^)]+?)\s*\)\.(\w+)$`)
 
 // bind resolves the target of a contract.
 func (v *Verifier) bind(ct *Contract, pkg *types.Package) (*BoundContract, error) {
 	target := ct.Target
+	// "Outer$1" / "Outer$2$1": a function literal inside Outer, numbered as go/ssa numbers them
+	anonPath := ""
+	if m := anonTargetRe.FindStringSubmatch(target); m != nil && !ct.IsIface {
+		target, anonPath = m[1], m[2]
+	}
 	var f *types.Func
 	lookupType := func(tn string) (types.Type, *types.Package, error) {
 		p := pkg
@@ -339,6 +353,19 @@ func (v *Verifier) bind(ct *Contract, pkg *types.Package) (*BoundContract, error
 	}
 	sig := f.Type().(*types.Signature)
 	bc := &BoundContract{C: ct, Func: f, Pkg: pkg, Full: f.FullName()}
+	if anonPath != "" {
+		fn := v.ssaFunc(f)
+		for _, part := range strings.Split(anonPath[1:], "$") {
+			k, _ := strconv.Atoi(part)
+			if fn == nil || k < 1 || k > len(fn.AnonFuncs) {
+				return nil, fmt.Errorf("detached contract: %s has no function literal %s", f.FullName(), anonPath)
+			}
+			fn = fn.AnonFuncs[k-1]
+		}
+		bc.Anon = fn
+		bc.Full = f.FullName() + anonPath
+		sig = fn.Signature
+	}
 	if sig.Recv() != nil {
 		bc.Recv = sig.Recv().Name()
 		if bc.Recv == "" || bc.Recv == "_" {
@@ -387,6 +414,20 @@ func (v *Verifier) contractFor(full string) *BoundContract { return v.contracts[
 func (v *Verifier) contractForFn(fn *ssa.Function) *BoundContract {
 	if f, ok := fn.Object().(*types.Func); ok && f != nil {
 		return v.contracts[f.FullName()]
+	}
+	// function literal: Outer$k
+	if p := fn.Parent(); p != nil {
+		suffix := ""
+		for q := fn; q.Parent() != nil; q = q.Parent() {
+			suffix = strings.TrimPrefix(q.Name(), q.Parent().Name()) + suffix
+		}
+		root := fn
+		for root.Parent() != nil {
+			root = root.Parent()
+		}
+		if f, ok := root.Object().(*types.Func); ok && f != nil {
+			return v.contracts[f.FullName()+suffix]
+		}
 	}
 	return nil
 }
@@ -497,15 +538,31 @@ func (v *Verifier) generate(bc *BoundContract) *FuncResult {
 	t0 := time.Now()
 	res := &FuncResult{Func: bc.Full, Contract: bc}
 	fn := v.ssaFunc(bc.Func)
+	if bc.Anon != nil {
+		fn = bc.Anon
+	}
 	if fn == nil || len(fn.Blocks) == 0 {
 		res.Unsup = append(res.Unsup, "no SSA body for "+bc.Full)
 		return res
 	}
 	loopW := map[string]map[string]bool{}
-	for iter := 0; iter < 8; iter++ {
-		c := &Ctx{V: v, sc: newScript(), keys: map[string]*heapInfo{}, loopW: loopW, callSeq: map[string]int{}, typeIDs: map[string]int{}, top: fn, trusted: map[string]bool{}, pfSigs: map[string]string{}}
+	// heap keys are created on first use; a key first used after a "modifies everything" call would otherwise be
+	// read as unchanged since entry. All keys seen in one pass exist from the start of the next, until stable.
+	knownKeys := map[string]Sort{}
+	for iter := 0; iter < 10; iter++ {
+		c := &Ctx{V: v, sc: newScript(), keys: map[string]*heapInfo{}, loopW: loopW, callSeq: map[string]int{}, typeIDs: map[string]int{}, top: fn, trusted: map[string]bool{}, pfSigs: map[string]string{}, bridging: bc.C.Bridge}
 		st := newState()
 		c.key("$clk", SInt)
+		{
+			ks := make([]string, 0, len(knownKeys))
+			for k := range knownKeys {
+				ks = append(ks, k)
+			}
+			sort.Strings(ks)
+			for _, k := range ks {
+				c.key(k, knownKeys[k])
+			}
+		}
 		c.sc.assert(mk(SBool, "(>= %s 0)", c.clk(st).S))
 		c.entry = st
 		env := newEnv(c, fn.Pkg.Pkg)
@@ -526,6 +583,22 @@ func (v *Verifier) generate(bc *BoundContract) *FuncResult {
 			params = append(params, pv)
 		}
 		bc.bindParams(env, nil, params, fn)
+		// captured variables of a function literal: arbitrary existing cells, named as in the source
+		var free []*Val
+		for _, fv := range fn.FreeVars {
+			x := c.freshVal("fv_"+fv.Name(), fv.Type())
+			if x.T != nil && x.T.Sort == SV {
+				c.assumeExisting(st, x.T, tTrue)
+				if _, isPtr := fv.Type().Underlying().(*types.Pointer); isPtr {
+					c.sc.assert(tNot(tEq(x.T, tNull)))
+				}
+			}
+			free = append(free, x)
+			if env.free == nil {
+				env.free = map[string]*Val{}
+			}
+			env.free[fv.Name()] = x
+		}
 		v.assumeGlobalAxioms(c, st, tTrue)
 		for _, cl := range bc.C.Clauses {
 			if cl.Kind == "requires" {
@@ -537,7 +610,7 @@ func (v *Verifier) generate(bc *BoundContract) *FuncResult {
 				c.sc.assert(t)
 			}
 		}
-		fr := &Frame{c: c, fn: fn, params: params, contract: bc.C, env: env}
+		fr := &Frame{c: c, fn: fn, params: params, free: free, contract: bc.C, env: env}
 		fr.onReturn = func(f *Frame, ret *ssa.Return, s *State, g *Term, results []*Val) {
 			c.retSeq++
 			site := fmt.Sprintf("ret%d", c.retSeq)
@@ -571,7 +644,14 @@ func (v *Verifier) generate(bc *BoundContract) *FuncResult {
 		}
 		c.loopWNew = false
 		fr.run(st, tTrue)
-		if !c.loopWNew {
+		newKeys := false
+		for k, hi := range c.keys {
+			if _, ok := knownKeys[k]; !ok {
+				knownKeys[k] = hi.sort
+				newKeys = true
+			}
+		}
+		if !c.loopWNew && !newKeys {
 			res.Obls = c.obls
 			res.Unsup = c.unsup
 			res.Notes = c.notes
